@@ -48,6 +48,8 @@ def feval(e, env, defs=None, cache=None):
                     op, arg = defs[name]
                     if op == "sqrt":
                         return math.sqrt(max(ev(arg), 0.0))
+                    if op == "exp":
+                        return math.exp(ev(arg))
                     if op == "expr":
                         return ev(arg)
                 raise KeyError(f"unbound symbol {name}")
